@@ -50,9 +50,11 @@ class Grammar(object):
         # constants
         self.const = {}
         self.const[self.B] = [m.TRUE(), m.FALSE()]
-        self.const[self.I] = [m.Int(0), m.Int(1), m.Int(-1), m.Int(2), m.Int(-3)]
+        self.const[self.I] = [m.Int(0), m.Int(1), m.Int(-1), m.Int(2), m.Int(-3), m.Int(-2), m.Int(2 ** 53 + 1),
+                              m.Int(-(2 ** 63) - 1)]
         self.const[self.R] = [m.Real(0), m.Real(1), m.Real(-1), m.Real(Fraction(1, 2)), m.Real(Fraction(-3, 2))]
-        self.const[self.S] = [m.String(""), m.String("a"), m.String("ab"), m.String("7"), m.String("ba")]
+        self.const[self.S] = [m.String(""), m.String("a"), m.String("ab"), m.String("7"), m.String("ba"), m.String("+5"),
+                              m.String("\u0663"), m.String(" 1"), m.String("abcab")]
         for bt in self.bvs:
             w = bt.width
             vals = sorted(set([0, 1 % 2 ** w, 2 ** w - 1, 2 ** (w - 1), (2 ** (w - 1) - 1) % 2 ** w, 2 % 2 ** w]))
